@@ -63,6 +63,28 @@ func loadHook(spec string, log *[]og.Ref) (func(og.Ref) (any, error), error) {
 			}
 			return nil, nil
 		}, nil
+	case spec == "J":
+		// inverse of the "P" PersistentRef hook
+		return func(r og.Ref) (any, error) {
+			*log = append(*log, r)
+			switch pid := r.Pid.(type) {
+			case string:
+				if strings.HasPrefix(pid, "id") {
+					if n, err := strconv.Atoi(pid[2:]); err == nil {
+						return userObj(n), nil
+					}
+				}
+			case og.Tuple:
+				if len(pid) == 2 {
+					if u, ok := pid[0].(*UserObj); ok {
+						if s, ok := pid[1].(string); ok && s == "oid"+strconv.Itoa(u.N-100) {
+							return userObj(u.N - 100), nil
+						}
+					}
+				}
+			}
+			return nil, nil
+		}, nil
 	case strings.HasPrefix(spec, "F"), strings.HasPrefix(spec, "G"):
 		k, err := strconv.Atoi(spec[1:])
 		if err != nil {
@@ -108,6 +130,15 @@ func refHook(spec string, log *[]any) (func(any) *og.Ref, error) {
 		return mk(func(n int) *og.Ref { return &og.Ref{Pid: og.Tuple{"cls", int64(n)}} }), nil
 	case "N":
 		return mk(func(n int) *og.Ref { return &og.Ref{Pid: "id\n" + strconv.Itoa(n)} }), nil
+	case "P":
+		// ZODB-like id (class, oid) whose first component is itself an application object the hook maps (objects >= 100
+		// get a plain string id, so the recursion ends): the hook must be consulted inside the id too
+		return mk(func(n int) *og.Ref {
+			if n >= 100 {
+				return &og.Ref{Pid: "id" + strconv.Itoa(n)}
+			}
+			return &og.Ref{Pid: og.Tuple{userObj(n + 100), "oid" + strconv.Itoa(n)}}
+		}), nil
 	case "E":
 		return mk(func(n int) *og.Ref {
 			if n%2 == 0 {
